@@ -168,12 +168,13 @@ def space_e(tier: str):
     weights = [None, "0.000", "0.250", "0.500"]
     conss = [[("o1", (), "lo")], [("o1", (), "hi"), ("o2", ("very",), "lo")], [("o2", ("seldom",), "hi")]]
     pairs = [("AlgebraicProduct", "AlgebraicSum"), ("BoundedDifference", "EinsteinSum")]
-    sizes = (1, 2) if tier == "quick" else (1, 2, 3)
+    sizes = (1, 2, 3)
     for n in sizes:
         for tree in T.trees(n, leaves):
-            for w in weights:
-                for cons in conss:
-                    for c, d in pairs:
+            reduced = n == 3 and tier == "quick"
+            for w in (weights[:1] if reduced else weights):
+                for cons in (conss[:1] if reduced else conss):
+                    for c, d in (pairs[:1] if reduced else pairs):
                         other = R.rule(P("c", (), "hi"), [("o1", (), "lo"), ("o2", (), "hi")])
                         blocks = [R.block("rb1", [R.rule(tree, cons, weight=w), other], c, d, "Minimum")]
                         if n == 2:
